@@ -1820,7 +1820,27 @@ func ruleC14R9(w *World, r *Report) {
 			return "", nil
 		case *ssa.Phi:
 			var dc *ssa.Call
-			for _, e := range x.Edges {
+			for i, e := range x.Edges {
+				// an ASCII fast path: `r := rune(s[i]); if r >= utf8.RuneSelf { r, size = utf8.DecodeRune…(…) }` — below 0x80
+				// the byte is the rune; the edge that carries the converted byte is the "< 0x80" side of a test on it
+				if cv, ok := e.(*ssa.Convert); ok && i < len(x.Block().Preds) {
+					if bt, ok := cv.X.Type().Underlying().(*types.Basic); ok && bt.Kind() == types.Uint8 {
+						pred := x.Block().Preds[i]
+						if iff, ok := pred.Instrs[len(pred.Instrs)-1].(*ssa.If); ok {
+							if bo, ok := iff.Cond.(*ssa.BinOp); ok && (bo.X == ssa.Value(cv) || bo.X == cv.X) {
+								if k, isC := constInt(bo.Y); isC {
+									ascii := (bo.Op == token.GEQ && k == 0x80 && pred.Succs[1] == x.Block()) ||
+										(bo.Op == token.GTR && k == 0x7f && pred.Succs[1] == x.Block()) ||
+										(bo.Op == token.LSS && k == 0x80 && pred.Succs[0] == x.Block()) ||
+										(bo.Op == token.LEQ && k == 0x7f && pred.Succs[0] == x.Block())
+									if ascii {
+										continue
+									}
+								}
+							}
+						}
+					}
+				}
 				why, c := origin(e, seen)
 				if why != "" {
 					return why, nil
